@@ -29,15 +29,15 @@ CFG = {
                   "JqCodec): jq's order is a total preorder on duplicate-free values for every lawful number carrier; sort = "
                   "ordered permutation; unique = strictly increasing set of representatives; getpath_defined / "
                   "setpath_getpath_id / getpath_setpath / setpath_frame for every p in paths v; to_entries|from_entries on "
-                  "duplicate-free objects; @base64|@base64d and @uri|decode on all byte strings. Not proved (covered by the "
-                  "tie only): tojson|fromjson, tostream|fromstream, cmp=eq iff ==. Tie: all identities are evaluated by both "
+                  "duplicate-free objects; @base64|@base64d and @uri|decode on all byte strings. tostream|fromstream; cmp = eq iff ==. Not proved (covered by the "
+                  "tie only): tojson|fromjson. Tie: all identities are evaluated by both "
                   "Rust evaluators on generated values and every path, with an in-process verdict, and diffed with the model",
     "level_note": "numbers enter through an abstract carrier; `_partial` theorems name what is missing; @uri decode is "
                   "not checked (`@urid` is a succinctly extension without jq oracle)",
     "technique": "Lean 4 proof over the model + differential correspondence with in-process identity oracle",
     "variants": [{"features": []}],
     "lean_modules": ["SuccinctlyVerif.Props.C25"],
-    "lean_files": ["SuccinctlyVerif/Props/C25.lean", "SuccinctlyVerif/Proof/JqOrder.lean", "SuccinctlyVerif/Proof/JqCodec.lean", "SuccinctlyVerif/Proof/JqPaths.lean", "SuccinctlyVerif/Proof/JqEqv.lean", "SuccinctlyVerif/Model/JqValue.lean", "SuccinctlyVerif/Model/Jq.lean"],
+    "lean_files": ["SuccinctlyVerif/Props/C25.lean", "SuccinctlyVerif/Proof/JqOrder.lean", "SuccinctlyVerif/Proof/JqCodec.lean", "SuccinctlyVerif/Proof/JqPaths.lean", "SuccinctlyVerif/Proof/JqEqv.lean", "SuccinctlyVerif/Proof/JqStream.lean", "SuccinctlyVerif/Model/JqValue.lean", "SuccinctlyVerif/Model/Jq.lean"],
     "generated": [],
     "verdict": _verdict,
     "counters": _counters,
